@@ -161,7 +161,11 @@ func c15seq(out *evid.Out, cl, tl zerolog.Level, plain bool, ops []top) {
 		var exp []tline
 		switch o.kind {
 		case 0:
-			n, err := tw.WriteLevel(o.lvl, []byte(o.p))
+			buf := []byte(o.p)
+			n, err := tw.WriteLevel(o.lvl, buf)
+			for k := range buf {
+				buf[k] = '#' // zerolog's event buffers are pooled: the caller reuses its slice as soon as the call returns
+			}
 			if err != nil || n != len(o.p) {
 				out.Violate("trigger-return", fmt.Sprintf("WriteLevel returned (%d,%v) for a %d-byte line", n, err, len(o.p)), map[string]interface{}{"check": "c15", "ops": fmt.Sprint(ops)})
 			}
@@ -245,8 +249,8 @@ func c15(args []string) int {
 					ops[i] = top{kind: 2}
 				}
 			}
-			pr := pairs[idx%len(pairs)]
-			c15seq(out, pr[0], pr[1], idx%2 == 0, ops)
+			pr := pairs[r.Intn(len(pairs))]
+			c15seq(out, pr[0], pr[1], r.Bool(), ops)
 			if L == maxLen && s%9973 == 0 {
 				out.Sample(fmt.Sprintf("Conditional=%d Trigger=%d ops=%v", pr[0], pr[1], ops), 4)
 			}
@@ -278,7 +282,7 @@ func c15(args []string) int {
 						ops[i] = top{kind: 2}
 					}
 				}
-				c15seq(out, cl, tl, s%2 == 0, ops)
+				c15seq(out, cl, tl, r.Bool(), ops)
 				out.Case(uint64(idx), true)
 				out.Count("pair_grid_histories", 1)
 			}
@@ -389,6 +393,56 @@ func c15conc(args []string) int {
 				plan[g] = append(plan[g], in)
 			}
 		}
+		// line bodies: mostly tiny, some beyond the pooled 1 KiB buffer, a few beyond the 64 KiB reuse limit
+		bodies := map[int]string{}
+		var bodyMu sync.Mutex
+		var body func(id int) string
+		mkBody := func(id int) string {
+			switch {
+			case id%211 == 5:
+				return fmt.Sprintf("{\"id\":%d,\"pad\":\"%s\"}\n", id, strings.Repeat("y", 70000))
+			case id%7 == 3:
+				return fmt.Sprintf("{\"id\":%d,\"pad\":\"%s\"}\n", id, strings.Repeat("x", 1100))
+			}
+			return fmt.Sprintf("{\"id\":%d}\n", id)
+		}
+		body = func(id int) string {
+			bodyMu.Lock()
+			defer bodyMu.Unlock()
+			b, ok := bodies[id]
+			if !ok {
+				b = mkBody(id)
+				bodies[id] = b
+			}
+			return b
+		}
+		var retBad atomic.Value
+		// pool churn: other TriggerLevelWriters live and die at the same time (they share the buffer pool): what
+		// they hold must never show up at this run's destination, nor the other way round
+		bg := &tdest{}
+		stopBG := make(chan struct{})
+		bgDone := make(chan struct{})
+		var bgTriggered int64
+		go func() {
+			defer close(bgDone)
+			for k := 0; ; k++ {
+				select {
+				case <-stopBG:
+					return
+				default:
+				}
+				tw2 := &zerolog.TriggerLevelWriter{Writer: tdestLW{bg}, ConditionalLevel: 3, TriggerLevel: 5}
+				for j := 0; j < 3; j++ {
+					tw2.WriteLevel(0, []byte(fmt.Sprintf("bg-%d-%d %s\n", k, j, strings.Repeat("b", (k%5)*300))))
+				}
+				if k%2 == 0 {
+					tw2.Trigger()
+					atomic.AddInt64(&bgTriggered, 3)
+				}
+				tw2.Close()
+				time.Sleep(40 * time.Microsecond)
+			}
+		}()
 		var wg sync.WaitGroup
 		start := make(chan struct{})
 		for g := 0; g < G; g++ {
@@ -396,6 +450,7 @@ func c15conc(args []string) int {
 			go func(g int) {
 				defer wg.Done()
 				me := goid()
+				var buf []byte
 				var curOp int64 = -1
 				d.mu.Lock()
 				d.cur[me] = &curOp
@@ -407,7 +462,14 @@ func c15conc(args []string) int {
 					c := atomic.AddInt64(&clk, 1)
 					switch in.kind {
 					case 0:
-						tw.WriteLevel(in.lvl, []byte(fmt.Sprintf("{\"id\":%d}\n", in.id)))
+						buf = append(buf[:0], body(in.id)...)
+						n, err := tw.WriteLevel(in.lvl, buf)
+						if n != len(buf) || err != nil {
+							retBad.Store(fmt.Sprintf("WriteLevel returned (%d, %v) for a %d-byte line", n, err, len(buf)))
+						}
+						for k := range buf {
+							buf[k] = '#' // the caller reuses its buffer at once
+						}
 					case 1:
 						tw.Trigger()
 					case 2:
@@ -421,6 +483,21 @@ func c15conc(args []string) int {
 		reg.Wait()
 		close(start)
 		wg.Wait()
+		close(stopBG)
+		<-bgDone
+		if v := retBad.Load(); v != nil {
+			out.Violate("trigger-return", v.(string), map[string]interface{}{"check": "c15-conc", "run": run})
+		}
+		for _, l := range bg.got {
+			if !strings.HasPrefix(l.p, "bg-") || !strings.HasSuffix(l.p, "b\n") && !strings.HasSuffix(l.p, " \n") {
+				out.Violate("conc-foreign-line", fmt.Sprintf("a TriggerLevelWriter living next to this run received the line %q", clipb([]byte(l.p))), map[string]interface{}{"check": "c15-conc", "run": run})
+				break
+			}
+		}
+		if int64(len(bg.got)) != atomic.LoadInt64(&bgTriggered) {
+			out.Violate("conc-foreign-count", fmt.Sprintf("the short-lived TriggerLevelWriters next to this run released %d lines, their histories specify %d", len(bg.got), bgTriggered), map[string]interface{}{"check": "c15-conc", "run": run})
+		}
+		out.Count("pool_churn_writers_next_to_concurrent_runs", atomic.LoadInt64(&bgTriggered)/3*2)
 		// global invariants
 		seen := map[int]int{}
 		lvlOf := map[int]zerolog.Level{}
@@ -439,8 +516,8 @@ func c15conc(args []string) int {
 		}
 		for _, l := range d.got {
 			var lid int
-			if _, err := fmt.Sscanf(l.p, "{\"id\":%d}\n", &lid); err != nil || !strings.HasSuffix(l.p, "}\n") {
-				out.Violate("conc-altered", fmt.Sprintf("destination received an altered line %q", l.p), map[string]interface{}{"check": "c15-conc", "run": run})
+			if _, err := fmt.Sscanf(l.p, "{\"id\":%d", &lid); err != nil || l.p != body(lid) {
+				out.Violate("conc-altered", fmt.Sprintf("destination received an altered (or foreign) line %q", clipb([]byte(l.p))), map[string]interface{}{"check": "c15-conc", "run": run})
 				continue
 			}
 			seen[lid]++
@@ -458,7 +535,32 @@ func c15conc(args []string) int {
 				}
 			}
 		}
-		_ = hasClose
+		// conservation of the holdable lines too, where the history allows a verdict: without any Close every line
+		// is delivered exactly once as soon as the writer was released; if it never was, no holdable line shows up
+		released := false
+		for g := range plan {
+			for _, in := range plan[g] {
+				if in.kind == 1 || (in.kind == 0 && in.lvl >= tl) {
+					released = true
+				}
+			}
+		}
+		for g := range plan {
+			for _, in := range plan[g] {
+				if in.kind != 0 || in.lvl > cl {
+					continue
+				}
+				switch {
+				case released && !hasClose && seen[in.id] != 1:
+					out.Violate("conc-lost", fmt.Sprintf("held line id %d (level %d) delivered %d times although the writer was released and never closed (G=%d K=%d cl=%d tl=%d)", in.id, in.lvl, seen[in.id], G, K, cl, tl), map[string]interface{}{"check": "c15-conc", "run": run})
+				case !released && seen[in.id] != 0:
+					out.Violate("conc-released-without-trigger", fmt.Sprintf("held line id %d (level %d) was delivered although nothing ever released the writer (cl=%d tl=%d)", in.id, in.lvl, cl, tl), map[string]interface{}{"check": "c15-conc", "run": run})
+				}
+			}
+		}
+		if released && !hasClose {
+			out.Count("concurrent_runs_with_full_conservation_verdict", 1)
+		}
 		// real-time order: if the write of line a had RETURNED before the write of line b was CALLED, a can never
 		// come after b at the destination - except when a is holdable (level <= ConditionalLevel) and b is not
 		// (b passes at once while a may still be held). Every linearization keeps the real-time order, and the
@@ -468,7 +570,7 @@ func c15conc(args []string) int {
 			pos := map[int]int{}
 			for i, l := range d.got {
 				var lid int
-				if _, err := fmt.Sscanf(l.p, "{\"id\":%d}\n", &lid); err == nil {
+				if _, err := fmt.Sscanf(l.p, "{\"id\":%d", &lid); err == nil {
 					if _, dup := pos[lid]; !dup {
 						pos[lid] = i
 					}
@@ -540,7 +642,7 @@ func c15conc(args []string) int {
 			perOp := map[gk][]int{}
 			for i, l := range d.got {
 				var lid int
-				fmt.Sscanf(l.p, "{\"id\":%d}\n", &lid)
+				fmt.Sscanf(l.p, "{\"id\":%d", &lid)
 				k := gk{d.gids[i], d.opix[i]}
 				perOp[k] = append(perOp[k], lid)
 			}
